@@ -34,7 +34,7 @@ try:
         r = subprocess.run(["/venv/bin/python", "-m", "pytest", "-q", "-x", "-p", "no:cacheprovider", "--timeout=900", "tests"],
                            cwd=dst, capture_output=True, text=True)
         print("MUT: tests:", r.stdout.strip().splitlines()[-1] if r.stdout.strip() else r.stderr[-300:])
-    env = dict(os.environ, VERIF_REPO=dst)
+    env = dict(os.environ, VERIF_REPO=dst, VERIF_EVIDENCE_DIR=os.path.join(dst, ".evidence"), VERIF_REPLAY_DIR=os.path.join(dst, ".replays"))
     verif = os.path.dirname(os.path.dirname(os.path.abspath(__file__)))
     for prop in props:
         r = subprocess.run(["/venv/bin/python", "rv/run.py", prop, "--tier", tier], cwd=verif, env=env, capture_output=True, text=True)
